@@ -282,14 +282,14 @@ pub fn check(prop: &str, tier: Tier, seed: u64) -> i32 {
             )
         }
         "C11" => {
-            let p = run_part(prop, "scc", seed, budget(tier, 4_000_000, 50_000_000), tier, cap, "graph_and_container_order");
+            let p = run_part(prop, "scc", seed, budget(tier, 1_500_000, 20_000_000), tier, cap, "graph_and_container_order");
             finish(
                 prop,
                 tier,
                 seed,
                 CheckSpec {
                     level: "exploration",
-                    rule: "seeded directed graphs (sparse/dense random, cycles sharing nodes with chords, DAG with back edges, chains of components; self-loops, parallel edges, isolated nodes; 1-30 nodes) in digraph and sync_digraph containers; per graph 2-4 container instances, each with its own simulated hash seed (iteration order) and insertion order; scc() must be a partition of the members equal, as a set of sets, to the mutual-reachability classes of a reachability closure; distinct = distinct (flavour, graph, observed container iteration order) triples".into(),
+                    rule: "seeded directed graphs (sparse/dense random, cycles sharing nodes with chords, DAG with back edges, chains of components, gadget fields; self-loops, parallel edges, isolated nodes; 1-30 nodes, one run in 15000 with 700-1800 nodes) in digraph and sync_digraph containers; per graph 2-4 container instances, each with its own simulated hash seed (iteration order) and insertion order; scc() must be a partition of the members equal, as a set of sets, to the strongly connected components computed by an iterative Tarjan reference (cross-checked against a reachability closure on every graph of <= 12 nodes); a third of the scenarios then change edges through the node handles (connect/disconnect/isolate) and call scc() again on the SAME container instance; distinct = distinct (flavour, graph, observed container iteration order) triples".into(),
                     assumptions: vec!["containers are closed under neighbours (the property's precondition)".into()],
                 },
                 vec![p],
@@ -312,7 +312,7 @@ pub fn check(prop: &str, tier: Tier, seed: u64) -> i32 {
             )
         }
         "C13" => {
-            let p = run_part(prop, "untrusted", seed, budget(tier, 200_000, 2_500_000), tier, cap, "mutated_documents");
+            let p = run_part(prop, "untrusted", seed, budget(tier, 50_000, 700_000), tier, cap, "mutated_documents");
             let docs = p.stats.get("documents");
             let mut p = p;
             p.runs = docs.max(p.runs);
@@ -322,7 +322,7 @@ pub fn check(prop: &str, tier: Tier, seed: u64) -> i32 {
                 seed,
                 CheckSpec {
                     level: "fault_enumeration",
-                    rule: "per seeded base document (valid document of a small graph, four container types, JSON and CBOR): every truncation offset, every structural mutation of the document tree (drop/duplicate/redeclare/retype/shorten a node or edge element, retarget an edge end to a declared or an undeclared key, drop the edge list, drop both, extra element, list replaced by scalar, top-level map) and seeded byte damage (bit flip, byte drop, duplicate, overwrite); a third of the base documents are delivered through a faulty reader (short reads, EINTR, I/O error at k); oracle = the property's disjunction: no panic/hang; Ok(g) => g satisfies mirror/symmetry, lists only members, every node and edge of g is declared by the document (independent strict parse into plain tuples) with at most the listed multiplicity; any listed edge naming an undeclared key => Err; evaluations = mutated documents deserialised; distinct = distinct (flavour, document bytes)".into(),
+                    rule: "per seeded base document (valid document of a small graph, four container types, JSON and CBOR): every truncation offset, every structural mutation of the document tree (drop/duplicate/redeclare/retype/shorten a node or edge element, retarget an edge end to a declared or an undeclared key, drop the edge list, drop both, extra element, list replaced by scalar, top-level map) and at every offset of documents up to 120 bytes every structurally meaningful byte value of the format (CBOR major-type/length headers, JSON punctuation), seeded pairs of structural mutations and seeded byte damage (bit flip, byte drop, duplicate, overwrite); a third of the base documents are delivered through a faulty reader (short reads, EINTR, I/O error at k); oracle = the property's disjunction: no panic/hang; Ok(g) => g satisfies mirror/symmetry, lists only members, every node and edge of g is declared by the document (independent strict parse into plain tuples) with at most the listed multiplicity; any listed edge naming an undeclared key => Err; evaluations = mutated documents deserialised; distinct = distinct (flavour, document bytes)".into(),
                     assumptions: vec!["a panic of serde_json/serde_cbor that also occurs when the same bytes are decoded into plain tuples is a dependency defect (counted, not a verdict)".into()],
                 },
                 vec![p],
